@@ -15,10 +15,11 @@ ASSUMPTIONS = ["Python >> on ints is floor division by a power of two (Z.shiftr)
 
 def coords(tier):
     out = set()
-    ms = [0, 1, 2, 7, 8, 9, 63, 64, 511, 512, 4095, 4096] if tier == "thorough" else [0, 1, 7, 8, 4095, 4096]
     for j in range(5):
         size = 1 << (17 + 3 * j)
-        for m in ms:
+        nb = 4096 >> (3 * j)          # bins at this level; nb*size = 2^29
+        ms = {0, 1, 7, 8, nb - 1, nb} if tier == "quick" else {0, 1, 2, 3, 7, 8, 9, 63, 64, 65, 511, 512, nb // 2, nb - 2, nb - 1, nb}
+        for m in sorted(x for x in ms if 0 <= x <= nb):
             for d in range(-2, 3):
                 out.add(m * size + d)
     for d in range(-2, 3):
